@@ -81,6 +81,13 @@ def _propagate_nan_values(
     return objective_results, constraint_results
 
 
+def _uses_realization_filters(config: EnOptConfig) -> bool:
+    filters = [config.objectives.realization_filters]
+    if config.nonlinear_constraints is not None:
+        filters.append(config.nonlinear_constraints.realization_filters)
+    return any(item is not None and bool(np.any(item >= 0)) for item in filters)
+
+
 def _get_active_realizations(
     config: EnOptConfig,
     *,
@@ -90,7 +97,7 @@ def _get_active_realizations(
     if objective_weights is None:
         # Realization filters may assign a non-zero weight to any realization,
         # and rank them by their function values. Hence, all are needed:
-        if config.realization_filters:
+        if _uses_realization_filters(config):
             return None, None
         active_realizations = np.abs(config.realizations.weights) > 0
         if np.all(active_realizations):
